@@ -139,6 +139,32 @@ func checkC16(e *Env) {
 		e.R.Fail("GATE", pkg+"(*parser).parseParameterisedIdentifier:one-store", "-", "expected exactly one store into the parameter map")
 	}
 
+	// a String keeps only printable ASCII (%x20-7E), or an escaped '"' / '\\': the
+	// class the serializer accepts (strings with other bytes are refused there)
+	if ps := e.fn(pkg + "(*parser).parseString"); ps != nil {
+		tC := "call:(*structuredheader.parser).getChar(param:p)"
+		n := e.gatesBefore("GATE", ps, noCfg, "keep-char", func(in ssa.Instruction) bool {
+			c, ok := in.(*ssa.Call)
+			if !ok {
+				return false
+			}
+			switch prov.CalleeName(&c.Call) {
+			case "(*strings.Builder).WriteByte", "(*bytes.Buffer).WriteByte":
+				return true
+			case "builtin:append":
+				return strings.Contains(prov.Of(c.Call.Args[1]), tC)
+			}
+			return false
+		},
+			either("P.string-lo", "c >= 0x20 (or an escaped quote or backslash)",
+				gate.Cmp("", tC, token.GEQ, "const:32"), gate.Cmp("", tC, token.EQL, "const:34"), gate.Cmp("", tC, token.EQL, "const:92")),
+			either("P.string-hi", "c <= 0x7e (or an escaped quote or backslash)",
+				gate.Cmp("", tC, token.LEQ, "const:126"), gate.Cmp("", tC, token.EQL, "const:34"), gate.Cmp("", tC, token.EQL, "const:92")))
+		if n == 0 {
+			e.R.Undecided("GATE", pkg+"(*parser).parseString:keep-char", e.P.Pos(ps.Pos()), "cannot find where parseString keeps a character")
+		}
+	}
+
 	// (b) writer validation
 	o0 := gate.Outcome{Kind: gate.ErrNil, Idx: 0}
 	ser := e.fn(pkg + "(*ParameterisedIdentifier).serialize")
